@@ -10,6 +10,7 @@ record every call together with the index of the event during which it arrived.
 Event tokens (same text goes to the Lean driver, see lean/PyatvModel/C10/Driver.lean):
   p.<proto>.<val> post_update | s start | t stop | k.<proto>.<mask> takeover | r release
   v./o./f.<proto>.<val> dispatch Volume / OutputDevices / KeyboardFocus | d drain
+  a.<proto>.<0|1> the updater's own `active` flag turns off / on by itself
 Mode D = the loop drains after every event (the property's histories); mode U = drains only
 at `d` (finer scheduling granularity; model/implementation correspondence and the
 scheduling-independent part of the oracle only).
@@ -20,7 +21,8 @@ import itertools
 RULE = ("suite A: every history of exactly L events over {post p v (p registered, v in 3 values), start, stop, "
         "takeover p, release} for 1, 2 and 3 protocols (L per tier), loop drained after every event; suite B: the "
         "same for Volume / OutputDevices / KeyboardFocus dispatches from two protocols (+ Keyboard takeover/release); "
-        "suite D: for every Playing domain (each constructor field varied alone over three values, once without and once "
+        "suite F: updaters whose own `active` flag turns off/on by itself (independently of start/stop), exhaustive "
+        "histories for one and two protocols incl. takeover; suite D: for every Playing domain (each constructor field varied alone over three values, once without and once "
         "with an explicit hash shared by the three states; hash alone; colliding calculated hashes; unset/empty; mixed) "
         "every short post sequence; suite E: user listeners (push / volume / output devices / focus) that raise on their "
         "k-th call, k = 1..3, after recording it, exhaustive short histories per kind; suite A rotates through all Playing "
@@ -34,6 +36,11 @@ ASSUMPTIONS = [
     "At finer granularity (mode U) everything except 'nothing after stop()' still holds; a play status already queued "
     "with call_soon when stop() is called IS delivered afterwards on the real code (theorem stop_undrained_delivers, "
     "replayed each run and recorded under notes.undrained_post_then_stop) — not counted as a violation",
+    "the protocol updaters' own `active` flag is protocol state: start()/stop() set it through the updater's "
+    "start()/stop(), and it may change by itself (scripted `a.p.b` events: poller died / restarted); the facade's delivery "
+    "decisions do not depend on it on the pinned code (Lean: selfact_irrelevant); the oracle keeps demanding nothing after "
+    "stop(), only from the serving protocol, only on change, and does not demand delivery from an updater that reports "
+    "itself inactive",
     "the user's listener objects stay alive (StateProducer keeps weak references); they record every call and, when "
     "scripted, raise on their k-th call after recording it — the exception goes to the loop's exception handler and, "
     "as on the pinned code (value stored / _previous_state set before the listener is called), changes nothing in the "
@@ -90,6 +97,11 @@ class _Env:
 
             def stop(self):
                 self._active = False
+
+            def turn(self, active):
+                """The protocol's own doing: the poller dies after an error / a task is cancelled
+                (inactive while still holding the listener) or the protocol restarts it."""
+                self._active = active
 
         class Kbd(interface.Keyboard):
             @property
@@ -330,6 +342,8 @@ async def _run_case(env, case):
                 w.dispatchers[int(f[1])].dispatch(us.OutputDevices, env.devices(int(f[2])))
             elif f[0] == "f":
                 w.dispatchers[int(f[1])].dispatch(us.KeyboardFocus, env.focus[int(f[2])])
+            elif f[0] == "a":
+                w.updaters[int(f[1])].turn(f[2] == "1")
             elif f[0] == "d":
                 await _settle()
             else:
@@ -343,13 +357,20 @@ async def _run_case(env, case):
         main_k = env.priorities.index(kbd.main_protocol) if kbd.main_protocol is not None else None
     except Exception as exc:
         main_p = main_k = "exc:" + type(exc).__name__
+    try:
+        active = 1 if push.active else 0
+    except env.exceptions.NotSupportedError:
+        active = None
+    except Exception as exc:
+        active = "exc:" + type(exc).__name__
     cur = (env.index_of(env.volumes, getattr(audio, "_volume", None)) if hasattr(audio, "_volume") else None,
            env.devices_val(getattr(audio, "_output_devices")) if hasattr(audio, "_output_devices") else None,
            env.index_of(env.focus, getattr(kbd, "_focus_state", None)) if hasattr(kbd, "_focus_state") else None)
     w.idx = len(toks)
     await _settle()   # U-mode histories end with `d`; anything arriving now is recorded past the end
     return {"log": w.log, "refused": w.refused, "errors": w.errors + [(-2, "loop:" + e) for e in w.loop_errors],
-            "main_p": main_p, "main_k": main_k, "cur": cur, "faults": w.faults, "keep": (atv, listener)}
+            "main_p": main_p, "main_k": main_k, "cur": cur, "active": active, "faults": w.faults,
+            "keep": (atv, listener)}
 
 
 def execute(env, cases):
@@ -363,7 +384,7 @@ def execute(env, cases):
                 r.pop("keep", None)
             except Exception as exc:
                 r = {"log": [], "refused": [], "errors": [(-1, type(exc).__name__ + ":" + str(exc)[:80])],
-                     "main_p": None, "main_k": None, "cur": (None, None, None), "faults": 0}
+                     "main_p": None, "main_k": None, "cur": (None, None, None), "active": None, "faults": 0}
             out.append(r)
         return out
 
@@ -383,6 +404,7 @@ def oracle(case, res):
         by_idx.setdefault(ent[0], []).append(ent)
     refused = set(res["refused"])
     started = False
+    active = {}             # the updaters' own `active` flag (start/stop set it, `a.p.b` changes it)
     hist = {}               # updater -> produced states
     eff = []                # (event idx, p, v, consumed?) posts the property allows to be delivered
     holder = None           # takeover holder of the PushUpdater interface
@@ -413,8 +435,12 @@ def oracle(case, res):
             eff.append([idx, p, v, not allowed])
         elif f[0] == "s":
             started = True
+            active.update({q: True for q in reg_p})
         elif f[0] == "t":
             started = False
+            active.update({q: False for q in reg_p})
+        elif f[0] == "a":
+            active[int(f[1])] = f[2] == "1"
         elif f[0] == "k":
             a, b = MASKS[int(f[2])]
             if idx not in refused:
@@ -437,7 +463,9 @@ def oracle(case, res):
             # a state that differs from the one this updater produced before, produced while started by
             # the serving protocol, must reach the user (during this event, at this granularity)
             ent = eff[-1]
-            if not ent[3] and ent[1] == serving() and ent[1] in reg_p and not any(g[1] == "P" for g in got):
+            # (not demanded of an updater that reports itself inactive: the text is silent about that)
+            if (not ent[3] and ent[1] == serving() and ent[1] in reg_p and active.get(ent[1], False)
+                    and not any(g[1] == "P" for g in got)):
                 problems.append(("play:missing", f"event {idx} ({tok}): updater {ent[1]} serves, is started and produced a state "
                                  "different from its previous one, but the user's listener was not notified"))
         if mode == "D" and f[0] in "vof":
@@ -577,6 +605,22 @@ def suite_e(ctx, env):
             yield ("D", [0], [0], doms[(n + k) % len(doms)], toks, f"P{k},V{k},O{k},F{k}")
 
 
+def suite_f(ctx, env):
+    """Updaters whose own `active` flag changes independently of the facade's start()/stop()
+    (a.<p>.0 = turns inactive by itself while still holding the listener, a.<p>.1 = active
+    again): exhaustive histories at the property's granularity, one and two protocols."""
+    names = env.domain_names
+    n = 0
+    length = ctx.scale(5, 6)
+    for reg, alpha in (([0], ["p.0.0", "p.0.1", "s", "t", "a.0.0", "a.0.1"]),
+                       ([0, 4], ["p.4.1", "p.0.1", "s", "t", "a.4.0", "k.4.1"])):
+        for t in itertools.product(alpha, repeat=length):
+            if not any(x.startswith("a.") for x in t):
+                continue            # covered by suite A
+            n += 1
+            yield ("D", reg, [], names[n % len(names)], list(t), "")
+
+
 def random_raises(rng):
     if rng.random() < 0.6:
         return ""
@@ -602,10 +646,12 @@ def random_case(rng, maxlen, env):
             kind = rng.choice("vof") if focus_on else rng.choice("vvof")
             p = rng.choice(reg_k) if (kind == "f" and reg_k and rng.random() < 0.7) else rng.randrange(5)
             toks.append(f"{kind}.{p}.{rng.randrange(3)}")
-        elif r < 0.66:
+        elif r < 0.64:
             toks.append("s")
-        elif r < 0.73:
+        elif r < 0.70:
             toks.append("t")
+        elif r < 0.74:
+            toks.append(f"a.{rng.choice(reg_p) if rng.random() < 0.85 else rng.randrange(5)}.{rng.choice([0, 0, 1])}")
         elif r < 0.83:
             p = rng.choice(reg_p + reg_k) if rng.random() < 0.8 else rng.randrange(5)
             toks.append(f"k.{p}.{rng.choice([1, 1, 2, 3, 3, 0])}")
@@ -627,6 +673,8 @@ WITNESSES = [
     ("D", [0], [0], "title", "v.0.1 v.4.1 v.4.2 v.0.0 f.4.1 f.0.2 o.0.2 o.0.2 o.4.1".split(), ""),
     # the same status twice in a row from one updater, across a suppressed intermediate state
     ("D", [0, 4], [], "title", "s p.0.1 k.4.1 p.0.2 r p.0.1".split(), ""),
+    # an updater that turned inactive by itself before stop(): nothing after stop(), also not as takeover holder
+    ("D", [0, 4], [], "title", "s a.4.0 t k.4.1 p.4.1 p.0.2 r a.0.0 s p.0.1 t p.0.2".split(), ""),
     # every listener raises on its first call; later notifications unaffected
     ("D", [0], [0], "title+hash", "s p.0.1 p.0.2 v.0.1 v.0.1 v.0.2 o.0.1 o.0.2 f.0.1 f.0.2".split(), "P1,V1,O1,F1"),
 ]
@@ -650,16 +698,16 @@ def impl_answer(res):
     o = lambda x: "n" if x is None else str(x)
     cur = res["cur"]
     return [",".join(outs) or "-", ",".join(map(str, res["refused"])) or "-", o(res["main_p"]), o(res["main_k"]),
-            cur[0], cur[1], cur[2]]
+            cur[0], cur[1], cur[2], o(res.get("active"))]
 
 
 def compare(ctx, case, res, ans):
     m = ans.split(" ")
-    if len(m) != 11:
+    if len(m) != 12:
         ctx.disagree({"case": case_json(case)}, impl_answer(res), ans, where="driver answer malformed")
         return
     impl = impl_answer(res)
-    model = [m[0], m[1], m[4], m[5], m[6], m[7], m[8]]
+    model = [m[0], m[1], m[4], m[5], m[6], m[7], m[8], m[11]]
     for k in (4, 5, 6):                       # private facade fields: compare only when present
         if impl[k] is None:
             model[k] = impl[k] = "*"
@@ -667,7 +715,7 @@ def compare(ctx, case, res, ans):
             impl[k] = str(impl[k])
     if impl != model:
         ctx.disagree(case_json(case), " ".join(impl), " ".join(model),
-                     where="outputs refused mainP mainK vol outs foc")
+                     where="outputs refused mainP mainK vol outs foc active")
 
 
 def case_json(case):
@@ -741,6 +789,8 @@ def run(ctx, only=None):
         len(env.domain_names), " ".join(env.domain_names), " ".join(env.domains_skipped) or "none")
     evaluate(ctx, env, list(suite_d(ctx, env)), "D")
     evaluate(ctx, env, list(suite_e(ctx, env)), "E")
+    for batch in chunks(suite_f(ctx, env), 20000):
+        evaluate(ctx, env, batch, "F")
     for batch in chunks(suite_a(ctx, env), 20000):
         evaluate(ctx, env, batch, "A")
     for batch in chunks(suite_b(ctx, env), 20000):
@@ -763,6 +813,11 @@ def widen(ctx):
     ctx.widened = True
     evaluate(ctx, env, list(suite_d(ctx, env)), "D")
     evaluate(ctx, env, list(suite_e(ctx, env)), "E")
+    ctx.widened = False
+    f_cases = list(suite_f(ctx, env))
+    ctx.widened = True
+    for batch in chunks(f_cases, 20000):
+        evaluate(ctx, env, batch, "F")
     for batch in chunks(a_cases, 20000):
         evaluate(ctx, env, batch, "A")
     for batch in chunks(suite_b(ctx, env), 20000):
